@@ -154,6 +154,16 @@ func malformed(g *rand.Rand, p *absPoint, uintOn bool) (string, []byte) {
 			x.TS = []string{strconv.FormatInt(hi+1, 10), strconv.FormatInt(lo-1, 10), "9223372036854775807", "-9223372036854775808",
 				"9223372036854775808", "-9223372036854775809", "99999999999999999999"}[g.Intn(7)]
 			class = "timestamp-out-of-range"
+			if m > 1 && g.Intn(2) == 0 {
+				// anywhere in the out-of-range span of this precision: the
+				// product with the unit wraps around int64 a varying number of times
+				if g.Intn(2) == 0 {
+					x.TS = strconv.FormatInt(hi+1+g.Int63n(math.MaxInt64-hi-1), 10)
+				} else {
+					x.TS = strconv.FormatInt(lo-1-g.Int63n(lo-1-math.MinInt64), 10)
+				}
+				class = "timestamp-out-of-range-wrapping"
+			}
 		case 19:
 			if x.TS == "" {
 				x.TS = "1"
